@@ -35,6 +35,15 @@ class VT:
         self.utf = b""
         self.log = []
 
+    def resize(self, rows, cols):
+        self.grid = [(row + [" "] * cols)[:cols] for row in self.grid]
+        while len(self.grid) < rows:
+            self.grid.append([" "] * cols)
+        self.grid = self.grid[:rows]
+        self.rows, self.cols = rows, cols
+        self.r, self.c = min(self.r, rows - 1), min(self.c, cols - 1)
+        self.pending = False
+
     def scroll(self):
         self.grid.pop(0)
         self.grid.append([" "] * self.cols)
@@ -263,8 +272,14 @@ class Session:
 
     def answer_query(self):
         self.nq += 1
-        if self.query_answers is not None and self.nq - 1 < len(self.query_answers) and self.query_answers[self.nq - 1] is not None:
-            for part in self.query_answers[self.nq - 1]:
+        if isinstance(self.query_answers, dict):
+            qa = self.query_answers.get(self.nq - 1)
+        elif self.query_answers is not None and self.nq - 1 < len(self.query_answers):
+            qa = self.query_answers[self.nq - 1]
+        else:
+            qa = None
+        if qa is not None:
+            for part in qa:
                 os.write(self.master, part.replace(b"<REPORT>", self.vt.report()))
                 time.sleep(0.002)
         else:
@@ -282,7 +297,7 @@ class Session:
 
     def resize(self, rows, cols):
         fcntl.ioctl(self.slave, termios.TIOCSWINSZ, struct.pack("HHHH", rows, cols, 0, 0))
-        self.vt.cols = cols
+        self.vt.resize(rows, cols)
         self.proc.send_signal(signal.SIGWINCH)
 
     def cpu(self):
@@ -309,7 +324,7 @@ class Session:
 
 
 def run_session(scenario, chunks, inputrc="", rows=24, cols=80, step_timeout=4.0, exe=None, query_answers=None,
-                keep_output=False):
+                keep_output=False, serialize=False):
     """Runs one scenario. chunks: list of bytes (one read each), or ("eof",), ("winch", rows, cols),
     ("sleep", s). Returns a dict: events, outcome (returned/waiting/panic/hang/spin/exit), waits (per-wait records)."""
     s = Session(scenario, inputrc, rows, cols, exe=exe)
@@ -318,6 +333,7 @@ def run_session(scenario, chunks, inputrc="", rows=24, cols=80, step_timeout=4.0
     try:
         i = 0
         pending_wait = False
+        resume_at = None
         hung_up = None
         t_idle = time.time()
         cpu0 = s.cpu()
@@ -326,7 +342,10 @@ def run_session(scenario, chunks, inputrc="", rows=24, cols=80, step_timeout=4.0
             new = s.pump(0.25)
             for ev in new:
                 if ev["ev"] == "wait":
-                    pending_wait = True
+                    # serialize: a wait at which the child starts an async Printf is not a point to send input at -
+                    # the redisplay it causes ends with the main loop reading again (the next wait event)
+                    pending_wait = not (serialize and ev.get("n") in (scenario.get("printf_at") or []))
+                    resume_at = None if pending_wait else time.time() + 0.3
                     rec = {"n": ev["n"], "snap": ev, "nq": s.nq}
                     if keep_output:
                         rec["out"] = s.out_since
@@ -360,6 +379,17 @@ def run_session(scenario, chunks, inputrc="", rows=24, cols=80, step_timeout=4.0
                     elif ch[0] == "winch":
                         s.resize(ch[1], ch[2])
                         time.sleep(ch[3] if len(ch) > 3 else 0.03)
+                        if serialize:
+                            pending_wait = False      # the redisplay ends with the main loop reading again
+                            resume_at = time.time() + 0.3
+                    elif ch[0] == "winch-glued":
+                        # the report that answers the redisplay's query arrives in the same read as user bytes
+                        if not isinstance(s.query_answers, dict):
+                            s.query_answers = {}
+                        s.query_answers[s.nq] = [ch[3]]
+                        s.resize(ch[1], ch[2])
+                        time.sleep(0.05)
+                        pending_wait = not (b"<REPORT>" in ch[3] and ch[3] != b"<REPORT>")
                     elif ch[0] == "sleep":
                         time.sleep(ch[1])
                     t_idle = time.time()
@@ -374,9 +404,18 @@ def run_session(scenario, chunks, inputrc="", rows=24, cols=80, step_timeout=4.0
                         continue
                 res["outcome"] = "waiting"
                 break
+            if serialize and not pending_wait and resume_at and time.time() > resume_at and not new:
+                # no new read by the main loop: it never left the one it was blocked in (the report of the redisplay was
+                # handed over without one, or dropped); input can be sent
+                pending_wait, resume_at = True, None
+                continue
             if time.time() - t_idle > step_timeout:
                 res["outcome"] = "spin" if s.cpu() - cpu0 > 50 else "hang"
                 break
+            if serialize and not pending_wait and i < len(chunks) and time.time() - t_idle > 0.8:
+                # nothing moves: if the main loop is blocked reading (a redisplay that ended without a new read), go on
+                pending_wait = True
+                continue
         if res["outcome"] is None:
             res["outcome"] = "exit"
         if keep_output:
@@ -398,7 +437,7 @@ def run_session(scenario, chunks, inputrc="", rows=24, cols=80, step_timeout=4.0
                     if not d:
                         break
                     data += d
-                res["goroutine_dump"] = data.decode("latin-1")[-6000:]
+                res["goroutine_dump"] = data.decode("latin-1")[-40000:]
             except Exception:
                 pass
     finally:
